@@ -27,6 +27,11 @@ func (f *Frame) String() string {
 }
 
 func (f *Frame) Read(r io.Reader) ([]byte, error) {
+	// Empty frame is valid, e.g. empty string
+	if f.size == 0 {
+		return []byte{}, nil
+	}
+
 	buf := framePool.Get().(*[]byte) // nolint:errcheck
 	defer framePool.Put(buf)
 
